@@ -151,9 +151,23 @@ package variablesvalidation
 //@   ensures {int.rejects.fractions} old(v.err) == nil && g_found && g_kind == ast.NodeKindScalarTypeDefinition && tn == "Int" && jt == astjson.TypeNumber && !integral ==> v.err != nil
 //@   ensures {enum.needs.string} old(v.err) == nil && g_found && g_kind == ast.NodeKindEnumTypeDefinition && jt != astjson.TypeString ==> v.err != nil
 //@   ensures {input.object.needs.object} old(v.err) == nil && g_found && g_kind == ast.NodeKindInputObjectTypeDefinition && jt != astjson.TypeObject ==> v.err != nil
+//@   ghost var g_len int = -1
+//@   ghost var g_looked int = 0
+//@   ghost var g_unknown bool = false
+//@   at call Object.Len: ghost g_len = result
+//@   at call Document.InputObjectTypeDefinitionInputValueDefinitionByName: ghost g_looked = g_looked + 1
+//@   at call Document.InputObjectTypeDefinitionInputValueDefinitionByName: ghost g_unknown = g_unknown || result == -1
+//@   ensures {accepted.input.object.has.only.defined.fields} old(v.err) == nil && g_found && g_kind == ast.NodeKindInputObjectTypeDefinition && v.err == nil ==> g_len >= 0 && g_looked == g_len && !g_unknown
 //@   ensures {path.restored} len(v.path) == old(len(v.path))
 //@   modifies *
 //@   loop 0:
-//@     invariant len(v.path) == old(len(v.path)) && (old(v.err) != nil ==> v.err != nil)
+//@     invariant len(v.path) == old(len(v.path)) && (old(v.err) != nil ==> v.err != nil) && g_len == -1 && g_looked == 0 && !g_unknown
 //@   loop 1:
 //@     invariant len(v.path) == old(len(v.path)) && (old(v.err) != nil ==> v.err != nil)
+//@     invariant g_len >= 0 && len(keys) == g_len && g_looked == phi0 + 1 && !g_unknown
+
+// every validation run starts without an error left over from a previous run on the same validator
+//@ func VariablesValidator.Validate
+//@   requires v != nil && v.visitor != nil
+//@   at call Walker.Walk: assert {validation.starts.without.a.stale.error} v.visitor.err == nil
+//@   modifies *
